@@ -172,16 +172,14 @@ class Sym:
                 # list building:  X.append(v) / X.extend(vs) / X.insert(0, v)
                 c = s.value
                 if isinstance(c, ast.Call) and isinstance(c.func, ast.Attribute) and isinstance(c.func.value, ast.Name) \
-                        and c.func.value.id in env and env[c.func.value.id][0] in ("list", "comp") and c.args \
-                        and c.func.attr in ("append", "extend"):
-                    cur = env[c.func.value.id]
-                    if cur[0] == "comp":
-                        cur = ("list", (("splice", cur),))
-                    if c.func.attr == "append":
-                        env[c.func.value.id] = _norm_list(("list", cur[1] + (self.expr(c.args[0], env, depth),)))
-                    elif c.func.attr == "extend":
-                        v = self.expr(c.args[0], env, depth)
-                        env[c.func.value.id] = _norm_list(("list", cur[1] + v[1]) if v[0] == "list" else ("list", cur[1] + (("splice", v),)))
+                        and c.func.value.id in env and c.args and c.func.attr in ("append", "extend"):
+                    v = self.expr(c.args[0], env, depth)
+                    new = list_add(env[c.func.value.id], c.func.attr, v)
+                    # a mutation that is not understood makes the value opaque (never silently stale)
+                    env[c.func.value.id] = new if new is not None else ("mutated", c.func.value.id, self.fi.qual)
+                elif isinstance(c, ast.Call) and isinstance(c.func, ast.Attribute) and isinstance(c.func.value, ast.Name) \
+                        and c.func.value.id in env and c.func.attr in self.MUTATORS and env[c.func.value.id][0] in ("list", "comp", "phi", "dict", "set", "dictcomp"):
+                    env[c.func.value.id] = ("mutated", c.func.value.id, self.fi.qual)
                 continue     # docstrings, other side-effect calls (not part of the value)
             if isinstance(s, (ast.Pass, ast.Import, ast.ImportFrom, ast.Assert, ast.Raise, ast.Global)):
                 if isinstance(s, ast.Raise):
@@ -681,6 +679,24 @@ def mktry(a, exc, b):
     if exc == "StopIteration" and isinstance(a, tuple) and a and a[0] == "call" and a[1] == "next" and len(a[2]) == 1 and a[2][0][0] == "comp":
         return ("first", a[2][0], b)
     return ("try", a, exc, b)
+
+
+def list_add(cur, method, v):
+    """canonical list after  cur.append(v) / cur.extend(v);  conditionals distribute;  None when cur is not a list form"""
+    if not isinstance(cur, tuple) or not cur:
+        return None
+    if cur[0] == "phi":
+        a, b = list_add(cur[2], method, v), list_add(cur[3], method, v)
+        if a is None or b is None:
+            return None
+        return mkphi(cur[1], a, b)
+    if cur[0] == "comp":
+        cur = ("list", (("splice", cur),))
+    if cur[0] != "list":
+        return None
+    if method == "append":
+        return _norm_list(("list", cur[1] + (v,)))
+    return _norm_list(("list", cur[1] + v[1]) if v[0] == "list" else ("list", cur[1] + (("splice", v),)))
 
 
 def item_of(value, i):
